@@ -16,7 +16,9 @@ eight behind a control byte; `expand` is the reference semantics on the 4096-byt
   LZSS stream) is opened with exactly those header values, and `decompress` writes exactly the
   expansion of its tokens.
 
-Not covered: the QBasic header variant at file level (the LZSS theorem covers its mode), KWAJ
+* `C05_szdd_qbasic_roundtrip`: the same for the QBasic variant (other signature, data at 12, ring start 18 below the end).
+
+Not covered: KWAJ
 headers and its other compression methods (validated by differential runs, checks/c05.py).
 -/
 namespace MsPack.Lzss
@@ -99,6 +101,49 @@ theorem C05_szdd_roundtrip (missing : UInt8) (length : Nat) (hlen : length < 429
   unfold decompress
   rw [hopen]
   simp only [extract, fmtNORMAL, ↓reduceIte, Rd.seekStart, hdec]
+
+/-- the QBasic 4.5 variant: other signature, no 'A' / missing-character bytes, data from offset 12, ring start 18 below the end -/
+def encodeSzddQbasic (length : Nat) (toks : List Tok) : Bytes :=
+  szddSignatureQbasic.map UInt8.ofNat ++ enc32 length ++ encode toks
+
+theorem sig_qbasic_roundtrip : sigMatches (szddSignatureQbasic.map UInt8.ofNat) szddSignatureQbasic = true := by decide
+theorem sig_qbasic_not_expand : sigMatches (szddSignatureQbasic.map UInt8.ofNat) szddSignatureExpand = false := by decide
+
+theorem C05_szdd_qbasic_roundtrip (length : Nat) (hlen : length < 4294967296) (toks : List Tok)
+    (hwf : ∀ t ∈ toks, t.wf) (fuel : Nat) (hfuel : toks.length + 1 ≤ fuel) :
+    (∃ rd, open_ (some (encodeSzddQbasic length toks)) = (some ⟨⟨fmtQBASIC, length, 0⟩, rd⟩, .ok)) ∧
+    decompress fuel (some (encodeSzddQbasic length toks)) =
+      .ok ⟨.ok, some (expand toks (initRing lzssMODE_QBASIC)).out.toList⟩ := by
+  have hd0 : (encodeSzddQbasic length toks).drop 0 =
+      szddSignatureQbasic.map UInt8.ofNat ++ (enc32 length ++ encode toks) := by
+    simp [encodeSzddQbasic, List.append_assoc]
+  have hr0 := readExact_prefix _ 0 _ _ hd0
+  have hl0 : (szddSignatureQbasic.map UInt8.ofNat).length = 8 := by decide
+  rw [hl0] at hr0
+  have hd8 := drop_after _ 0 _ _ hd0
+  rw [hl0] at hd8
+  have hr8 := readExact_prefix _ (0 + 8) _ _ hd8
+  have hl8 : (enc32 length).length = 4 := rfl
+  rw [hl8] at hr8
+  have hd12 := drop_after _ (0 + 8) _ _ hd8
+  rw [hl8] at hd12
+  have hL : u32At (enc32 length) 0 = length := by
+    simp only [u32At, byteAt, enc32, le32, List.getD_cons_zero, List.getD_cons_succ]
+    rw [Oab.ofNat_toNat_lt _ (Nat.mod_lt _ (by decide)), Oab.ofNat_toNat_lt _ (Nat.mod_lt _ (by decide)),
+        Oab.ofNat_toNat_lt _ (Nat.mod_lt _ (by decide)), Oab.ofNat_toNat_lt _ (Nat.mod_lt _ (by decide))]
+    omega
+  have hopen : open_ (some (encodeSzddQbasic length toks)) =
+      (some ⟨⟨fmtQBASIC, length, 0⟩, ⟨encodeSzddQbasic length toks, 0 + 8 + 4⟩⟩, .ok) := by
+    unfold open_ readHeaders
+    simp only [hr0, sig_qbasic_roundtrip, sig_qbasic_not_expand, Bool.false_eq_true, ↓reduceIte, hr8]
+    generalize enc32 length = hdr at hL
+    simp only [hL]
+  refine ⟨⟨_, hopen⟩, ?_⟩
+  obtain ⟨src', hdec⟩ := C05_lzss_roundtrip toks hwf (encodeSzddQbasic length toks) 12 szddINPUT_SIZE (by decide)
+    lzssMODE_QBASIC (Or.inr rfl) fuel hfuel hd12
+  unfold decompress
+  rw [hopen]
+  simp only [extract, fmtQBASIC, fmtNORMAL, Nat.succ_ne_zero, ↓reduceIte, Rd.seekStart, hdec]
 
 end MsPack.Szdd
 
